@@ -86,6 +86,9 @@ def build(tier, seed):
         for i in range(0, len(FS), 2):
             tasks.append({"prog": n, "fs": FS[i : i + 2]})
     tasks.append({"conformance": names[:4]})
+    h2 = [{"hist2": n, "F1": f1, "F2": f2} for n in HIST2 for f1, f2 in HIST2_F]
+    for i in range(0, len(h2), 3):
+        tasks.append({"hist2": h2[i : i + 3]})
     gp = _gen_programs(tier)
     for bi, i in enumerate(range(0, len(gp), GEN_BATCH)):
         batch = gp[i : i + GEN_BATCH]
@@ -168,6 +171,10 @@ def _sections(text):
 
 
 def run_case(case):
+    if "hist2" in case:
+        vs = _hist2_case(case)
+        case.pop("_changed", None)
+        return vs
     if "gen" in case:
         v, _ = _gen_compare([case["gen"]], case["F"])
         return [] if v[0] is None else [{"case": case, "what": v[0][0], "detail": v[0][1]}]
@@ -232,6 +239,64 @@ def run_case(case):
     return viol
 
 
+# the second real session in one directory (bytecode cache on, as by default) against the helpers run on the files the first one left
+HIST2 = {
+    "same-size-list": H + "def rank():\n    return ['amy', 'bob', 'eve']\n\n\ndef test_a():\n    assert rank() == snapshot(['bob', 'eve', 'amy'])\n",
+    "same-size-scalars": H + "def test_a():\n    assert 5 == snapshot(4)\n    assert 'b' == snapshot('a')\n\n\ndef test_b():\n    assert 7 <= snapshot(9)\n    assert 3 in snapshot([3, 4])\n",
+    "same-size-dict": H + "def test_a():\n    assert {'a': 2, 'b': 1} == snapshot({'a': 1, 'b': 2})\n    assert 6 == snapshot()\n",
+}
+HIST2_F = [(["fix"], ["fix"]), (["fix"], []), (["fix"], list(CATS)), (["trim"], ["fix"]), (["fix", "trim"], ["trim", "update"]), (["create"], ["fix"]), (list(CATS), list(CATS))]
+
+
+def _hist2_case(case):
+    import os
+    import time
+    from inline_snapshot.testing import Example
+    from ..drivers import plugin
+    from ..drivers.inline import Cap, neutral_cwd
+
+    viol = []
+    src = HIST2[case["hist2"]]
+    d = plugin.mk_project({"pyproject.toml": "", "test_something.py": src})
+    fn = os.path.join(d, "test_something.py")
+
+    def clock(i):
+        # a file written "now" (by the harness or by a rewrite) gets its own past date; a date an earlier step set is left alone
+        if os.stat(fn).st_mtime > time.time() - 1000:
+            old = time.time() - 50000 + 1000 * i
+            os.utime(fn, (old, old))
+
+    try:
+        clock(0)
+        r0 = plugin.session(d, [], bytecode=True)  # fills the bytecode cache
+        r1 = plugin.session(d, ["--inline-snapshot=" + ",".join(case["F1"])], bytecode=True)
+        mid = plugin.listing(d, text=True)["test_something.py"]
+        clock(1)
+        flag = "--inline-snapshot=" + ",".join(case["F2"] + ["report"])
+        r2 = plugin.session(d, [flag], bytecode=True)
+        after = plugin.listing(d, text=True)["test_something.py"]
+    finally:
+        plugin.cleanup()
+    for r in (r0, r1, r2):
+        if plugin.internal_error(r["out"]):
+            return [{"case": case, "what": "real-session-internal-error", "detail": r["out"][-600:]}]
+    os.chdir(neutral_cwd())
+    cf1, rc1 = Cap(), Cap()
+    try:
+        Example({"test_something.py": mid}).run_inline(["--inline-snapshot=" + ",".join(case["F2"])], changed_files=cf1, reported_categories=rc1, raises=Cap())
+    except BaseException as e:  # noqa
+        return [{"case": case, "what": "run_inline-raised", "detail": "%s: %s" % (type(e).__name__, str(e)[:400])}]
+    inline_after = dict(cf1.get({})).get("test_something.py", mid)
+    if inline_after != after:
+        viol.append({"case": case, "what": "run_inline-differs-from-second-real-session",
+                     "detail": "--- after session 1 (%s) ---\n%s\n--- run_inline %s ---\n%s\n--- second real session ---\n%s\n%s" % (case["F1"], mid[-400:], case["F2"], inline_after[-400:], after[-400:], r2["out"][-400:])})
+    strict = lambda cs: sorted(c for c in cs if c != "update")  # noqa
+    if strict(rc1.get([]) or []) != strict(plugin.report_sections(r2["out"])):
+        viol.append({"case": case, "what": "reported-categories-differ", "detail": "run_inline %s, second real session shows %s" % (sorted(rc1.get([]) or []), plugin.report_sections(r2["out"]))})
+    case["_changed"] = mid != src
+    return viol
+
+
 def _diff(a, b):
     out = []
     for k in sorted(set(a) | set(b)):
@@ -268,6 +333,17 @@ def run_task(task):
     out = {"n": 0, "nontrivial": [], "outcomes": {}, "violations": [], "samples": []}
     if "gen" in task:
         return _gen_task(task)
+    if "hist2" in task:
+        for c in task["hist2"]:
+            vs = _hist2_case(c)
+            changed = c.pop("_changed", False)
+            out["n"] += 1
+            out["violations"] += vs
+            lab = "viol:" + vs[0]["what"] if vs else "agree:second-session"
+            if not vs and changed:
+                out["nontrivial"].append("hist2|%s|%s|%s" % (c["hist2"], c["F1"], c["F2"]))
+            out["outcomes"][lab] = out["outcomes"].get(lab, 0) + 1
+        return out
     if "conformance" in task:
         v, n = _conformance(task["conformance"])
         out["n"] = n
